@@ -127,6 +127,10 @@ class TheJoker:
         joker_helper = self._make_joker_helper(data)  # also validates data
 
         if in_memory:
+            if isinstance(prior_samples, str):
+                # load all prior samples from the cache file into memory
+                prior_samples = JokerSamples.read(prior_samples)
+
             if isinstance(prior_samples, JokerSamples):
                 prior_samples, _ = prior_samples.pack(
                     units=joker_helper.internal_units, names=joker_helper.packed_order
@@ -218,6 +222,10 @@ class TheJoker:
             prior_samples = self.prior.sample(size=N, return_logprobs=return_logprobs)
 
         if in_memory:
+            if isinstance(prior_samples, str):
+                # load all prior samples from the cache file into memory
+                prior_samples = JokerSamples.read(prior_samples)
+
             if isinstance(prior_samples, JokerSamples):
                 ln_prior = None
                 if return_logprobs:
@@ -336,6 +344,10 @@ class TheJoker:
         joker_helper = self._make_joker_helper(data)  # also validates data
 
         if in_memory:
+            if isinstance(prior_samples, str):
+                # load all prior samples from the cache file into memory
+                prior_samples = JokerSamples.read(prior_samples)
+
             if isinstance(prior_samples, JokerSamples):
                 ln_prior = None
                 if return_logprobs:
